@@ -66,7 +66,8 @@ pub fn observe(s: &Pool2) -> Result<Obs, String> {
         burned: [pick(&fb.fees, 0), pick(&fb.fees, 1)],
         pair_bal: three(&s.pair),
         // (when the pool is its own collector there is no separate collector account to watch)
-        collector: if s.collector_now == s.pair { [0; 3] } else { three(&s.collector_now) },
+        // (likewise when a trading user is the collector: that account is watched as a user)
+        collector: if s.collector_now == s.pair || s.collector_user().is_some() { [0; 3] } else { three(&s.collector_now) },
         other_collector: [COLLECTOR, COLLECTOR2].iter().filter(|c| **c != s.collector_now).map(|c| three(c)).collect(),
         users: (0..n).map(|i| three(USERS[i])).collect(),
         users_lp: (0..n).map(|i| s.lp_bal(USERS[i])).collect(),
@@ -641,9 +642,9 @@ pub fn apply(s: &mut Pool2, step: &Step, ctx: &mut Ctx) {
             global_invariants(s, ctx, &before, &after, r.outcome.is_ok(), "set_fees");
             others_untouched(ctx, "C01", &before, &after, &[], false, "set_fees");
         }
-        Op::SetCollector { second, to_pool } => {
+        Op::SetCollector { second, to_pool, to_user } => {
             let before = match observe(s) { Ok(o) => o, Err(e) => { ctx.fail("C01", "solvency", "queries_fail", None, e); return; } };
-            let target = if *to_pool { s.pair.clone() } else if *second { COLLECTOR2.to_string() } else { COLLECTOR.to_string() };
+            let target = if *to_pool { s.pair.clone() } else if let Some(u) = to_user { s.user(*u).to_string() } else if *second { COLLECTOR2.to_string() } else { COLLECTOR.to_string() };
             let ext = |s: &Pool2| [[s.bal(COLLECTOR, 0), s.bal(COLLECTOR, 1), s.bal(COLLECTOR, 2)], [s.bal(COLLECTOR2, 0), s.bal(COLLECTOR2, 1), s.bal(COLLECTOR2, 2)]];
             let ext0 = ext(s);
             let msg = wasm_exec(
@@ -656,7 +657,7 @@ pub fn apply(s: &mut Pool2, step: &Step, ctx: &mut Ctx) {
             ctx.trace(&format!("set_collector:{target}:{}", r.outcome.kind()));
             if r.outcome.is_ok() {
                 s.collector_now = target;
-                ctx.probe(if *to_pool { "collector_is_the_pool_itself" } else { "collector_repointed" });
+                ctx.probe(if *to_pool { "collector_is_the_pool_itself" } else if to_user.is_some() { "collector_is_a_trading_user" } else { "collector_repointed" });
             }
             let after = match observe(s) { Ok(o) => o, Err(e) => { ctx.fail("C01", "solvency", "queries_fail", None, e); return; } };
             // re-pointing the collector moves nothing
@@ -746,7 +747,11 @@ fn do_provide(
             let mut exp_users = before.users.clone();
             exp_users[actor][0] -= amounts[0].min(exp_users[actor][0]);
             exp_users[actor][1] -= amounts[1].min(exp_users[actor][1]);
-            if exp_users != after.users || u256(after.pair_bal[0]) != u256(before.pair_bal[0]) + u256(amounts[0]) || u256(after.pair_bal[1]) != u256(before.pair_bal[1]) + u256(amounts[1]) {
+            // (a deposit sent with more than it declares, funds_mode 7: what the pool keeps beyond the credited
+            // amount is the sender's loss, not the pool's; only "received less than credited" is reported)
+            let surplus_mode = s.funds_mode_next.get() == 7;
+            let short = u256(after.pair_bal[0]) < u256(before.pair_bal[0]) + u256(amounts[0]) || u256(after.pair_bal[1]) < u256(before.pair_bal[1]) + u256(amounts[1]);
+            if short || (!surplus_mode && (exp_users != after.users || u256(after.pair_bal[0]) != u256(before.pair_bal[0]) + u256(amounts[0]) || u256(after.pair_bal[1]) != u256(before.pair_bal[1]) + u256(amounts[1]))) {
                 ctx.fail("C01", "deposit_funds_received", opname, None,
                     format!("deposit {:?}: pool balances {:?} -> {:?}", amounts, before.pair_bal, after.pair_bal));
             }
@@ -1001,6 +1006,8 @@ fn do_collect(s: &mut Pool2, ctx: &mut Ctx, actor: usize, fault: Fault) {
         }
         ctx.eval("C07");
         let alias = s.collector_now == s.pair;
+        let cu = s.collector_user();
+        if cu.is_some() { ctx.probe("collect_into_a_trading_user"); }
         for i in 0..2 {
             if alias {
                 // the pool is its own collector: a collection is a transfer to itself; what was owed counts
@@ -1016,7 +1023,7 @@ fn do_collect(s: &mut Pool2, ctx: &mut Ctx, actor: usize, fault: Fault) {
                 ctx.probe("collect_into_the_pool_itself");
                 continue;
             }
-            let got = after.collector[i] - before.collector[i];
+            let got = match cu { Some(k) => after.users[k][i].saturating_sub(before.users[k][i]), None => after.collector[i] - before.collector[i] };
             let left = before.pair_bal[i] - after.pair_bal[i];
             s.model.received[i] += got;
             let p = before.pending[i];
@@ -1046,7 +1053,7 @@ fn do_collect(s: &mut Pool2, ctx: &mut Ctx, actor: usize, fault: Fault) {
         }
         ctx.state_of(&obs_key(&after));
         global_invariants(s, ctx, &before, &after, true, "collect");
-        others_untouched(ctx, "C07", &before, &after, &[], true, "collect");
+        others_untouched(ctx, "C07", &before, &after, &cu.map(|k| vec![k]).unwrap_or_default(), true, "collect");
     } else {
         global_invariants(s, ctx, &before, &after, false, "collect");
     }
